@@ -276,12 +276,12 @@ INTMIN_NOTE = "signed overflow of -n for the pattern -2147483648 (peg.c `emit_1(
 
 def c1(name, case, clause, mutants, skip_intmin=False, **kw):
     u = {"id": "peg.wf.compile1." + name, "props": ["C12", "C10"], "tier": "quick", "class": "bounded",
-         "bound": "bytecode vector <= 24 words (absent, or 3 arbitrary words); scope chain of 2 tables; strings <= 5 bytes, tuples <= 3 elements, structs of capacity 2; keyword chains <= 2 steps",
+         "bound": "bytecode vector <= 12 words (absent, or 3 arbitrary words); scope chain of 2 tables; strings <= 5 bytes, tuples <= 3 elements, structs of capacity 2; keyword chains <= 2 steps",
          "clause": clause, "src": ["peg.c"], "link": ["wrap.c", "util.c"], "link_keep": {"util.c": ["janet_checkint"]},
          "harness": ["peg_compile1.c"], "entry": "h_c1", "mode": "plain", "functions": ["peg_compile1"],
-         "defines": ["-DVC_OWN_EXIT", "-DC1_" + case], "replace_calls": C1REPL, "replace_calls2": ["peg_compile1__entry:peg_compile1"],
+         "defines": ["-DVC_OWN_EXIT", "-DBCAP=12", "-DC1_" + case], "replace_calls": C1REPL, "replace_calls2": ["peg_compile1__entry:peg_compile1"],
          "remove_bodies": "cfun_peg_.*|peg_rule|peg_unmarshal|peg_marshal|spec_.*", "genbody": "(janet_|nd_|spec_).*", "nanbox": False, "checks": STD,
-         "unwind": 26, "unwinding_assertions": True, "timeout": 300, "assumes": A_C1, "mutants": mutants}
+         "unwind": 14, "unwinding_assertions": True, "timeout": 300, "assumes": A_C1, "mutants": mutants}
     if skip_intmin:
         u["skip"] = [INTMIN_SKIP]
         u["undecided_clauses"] = [INTMIN_NOTE]
@@ -294,16 +294,16 @@ c1("prim", "prim",
    [M("prim-notnchar-not-negated", "                emit_1(r, RULE_NOTNCHAR, -n);", "                emit_1(r, RULE_NOTNCHAR, n);", "NOTNCHAR"),
     M("prim-cached-in-local-scope", "            while (which_grammar->proto)\n                which_grammar = which_grammar->proto;", "", "ROOT"),
     M("prim-depth-not-restored", "    /* Increase depth again */\n    b->depth++;", "    /* Increase depth again */", "depth")],
-   skip_intmin=True, defines=["-DVC_OWN_EXIT", "-DC1_prim", "-DC1_KIND_LO=0", "-DC1_KIND_HI=1"])
+   skip_intmin=True, defines=["-DVC_OWN_EXIT", "-DBCAP=12", "-DC1_prim", "-DC1_KIND_LO=0", "-DC1_KIND_HI=1"])
 c1("literal", "prim",
    "string / buffer patterns: emit_bytes gets the string's (buffer's) own bytes and length (count, not capacity); the literal rule starts AT the entry count and that index is returned and cached in the root scope; wf_peg clause of RULE_LITERAL via the contract of emit_bytes",
    [M("prim-buffer-capacity-as-length", "            emit_bytes(b, RULE_LITERAL, buf->count, buf->data);", "            emit_bytes(b, RULE_LITERAL, buf->capacity, buf->data);", "literal"),
     M("prim-string-wrong-opcode", "            emit_bytes(b, RULE_LITERAL, len, str);", "            emit_bytes(b, RULE_SET, len, str);", "RULE_LITERAL")],
-   defines=["-DVC_OWN_EXIT", "-DC1_prim", "-DC1_KIND_LO=2", "-DC1_KIND_HI=3"])
+   defines=["-DVC_OWN_EXIT", "-DBCAP=12", "-DC1_prim", "-DC1_KIND_LO=2", "-DC1_KIND_HI=3"])
 c1("intmin", "prim",
    "the pattern -2147483648 (`-n` with n = INT32_MIN) is compiled without signed overflow [NOT established: undefined behaviour in peg_compile1, reported; unit disabled]",
    [M("prim-notnchar-not-negated", "                emit_1(r, RULE_NOTNCHAR, -n);", "                emit_1(r, RULE_NOTNCHAR, n);", "NOTNCHAR")],
-   defines=["-DVC_OWN_EXIT", "-DC1_prim", "-DC1_KIND_LO=1", "-DC1_KIND_HI=1"],
+   defines=["-DVC_OWN_EXIT", "-DBCAP=12", "-DC1_prim", "-DC1_KIND_LO=1", "-DC1_KIND_HI=1"],
    disabled_reason="fails on the pinned tree: peg_compile1.overflow.* 'arithmetic overflow on signed unary minus in -n' for (peg/compile -2147483648); benign on x86-64 (wraps to 0x80000000 = the intended operand) but undefined behaviour in C; reported")
 c1("cache", "cache",
    "a pattern found in the rule cache returns the cached index (an instruction start below the count, by INV) and emits / caches nothing; tuples are looked up in the current scope only (rawget), all other patterns through the scope chain; depth, scope and form restored",
@@ -499,7 +499,7 @@ for name, op, wf, mut, need in OPS_LOAD:
     load(name, op, "loader case %s: accepted => wf_peg clause `%s` holds for the instruction (what peg.rule.%s assumes); an instruction that does not fit into the bytecode is rejected; header fields, array placement, has_backref" % (op, wf, name), muts)
     if need:
         ro = "clen" in wf      # without constants these opcodes are never accepted
-        load(name, op, EXACT % (op, "; never accepted without constants" if ro else ""), [need] + GENERIC_MUT[1:], exact=True, reject_only=ro)
+        load(name, op, EXACT % (op, "; never accepted without constants" if ro else ""), [need] + ([] if ro else GENERIC_MUT[1:]), exact=True, reject_only=ro)
 VARM = [M("variadic-target-unmarked", "                    if (rule[2 + j] >= blen) goto bad;\n                    op_flags[rule[2 + j]] |= 0x1;", "                    if (rule[2 + j] >= blen) goto bad;", "wf_peg"),
         M("variadic-size-off-by-one", "                i += 2 + len;\n            }", "                i += 1 + len;\n            }", "wf_peg|does not fit|REACH")]
 VAR_LEN = M("variadic-length-unguarded", "                if (len > avail - 2) goto bad;\n", "", "pointer_dereference|outside object")
@@ -507,13 +507,13 @@ VAR_NEED = M("variadic-length-word-read-unguarded", "            {\n            
 for name, op in [("choice", "RULE_CHOICE"), ("sequence", "RULE_SEQUENCE")]:
     for suffix, lens, txt in [("", "0,1,2,3", "length operands 0..3"), (".long", "12,0xFFFFFFFFu", "length operands 12 (longer than the program) and 2^32-1: always rejected")]:
         load(name + suffix, op, "loader case %s: accepted => wf_peg clause `room >= 2 && r[1] <= room - 2 && every rule slot is an instruction start`; %s" % (op, txt),
-             (VARM if not suffix else []) + GENERIC_MUT[(0 if not suffix else 1):], lens=lens, reject_only=bool(suffix))
+             (VARM + GENERIC_MUT if not suffix else [VAR_LEN]), lens=lens, reject_only=bool(suffix))
         load(name + suffix, op, EXACT % (op, "; the slot loop runs only after `len <= words left - 2`; " + txt), [VAR_LEN] + (VARM[:1] if not suffix else []), lens=lens, exact=True, reject_only=bool(suffix))
 LITM = [M("literal-size-rounded-down", "                    uint32_t words = (rule[1] >> 2) + ((rule[1] & 3) ? 1 : 0);", "                    uint32_t words = (rule[1] >> 2);", "wf_peg|does not fit")]
 LIT_WRAP = M("literal-word-count-wraps-again", "                    uint32_t words = (rule[1] >> 2) + ((rule[1] & 3) ? 1 : 0);", "                    uint32_t words = (rule[1] + 3) >> 2;", "wf_peg")
-LIT_FIT = M("literal-data-words-unchecked", "                    if (words > avail - 2) goto bad;\n", "", "wf_peg|does not fit")
+# (dropping `if (words > avail - 2) goto bad;` is an equivalent mutant: the instruction pointer then passes blen and `i != blen` rejects)
 load("literal", "RULE_LITERAL", "loader case RULE_LITERAL: accepted => `room >= 2 && r[1] <= 4*len && 2 + ((r[1]+3)>>2) <= room` (the data words of the literal lie inside the bytecode: the matcher's memcmp reads them); length operands 0, 1, 4, 5, 8, 40",
-     LITM + [LIT_FIT] + GENERIC_MUT[1:], lens="0,1,4,5,8,40")
+     LITM + GENERIC_MUT[1:], lens="0,1,4,5,8,40")
 load("literal.wrap", "RULE_LITERAL", "loader case RULE_LITERAL with a length operand of 2^32-3 .. 2^32-1: rejected - the number of data words is computed without wrap-around (regression guard for /repo 27b2ab1: such a literal used to be accepted with no data words)",
      [LIT_WRAP], lens="0xFFFFFFFDu,0xFFFFFFFFu", reject_only=True)
 load("literal", "RULE_LITERAL", EXACT % ("RULE_LITERAL", " (length word inside the bytecode; the last-word case is peg.load.exact.literal.tail)"),
@@ -522,8 +522,8 @@ TAILM = [M("truncated-program-accepted", "    if (i != blen) goto bad;", "", "do
 TAIL_NEED = {"literal": M("literal-length-word-read-unguarded", "            case RULE_LITERAL:\n                PEG_NEED(2);", "            case RULE_LITERAL:\n                PEG_NEED(1);", "pointer_dereference|outside object"),
              "choice": VAR_NEED, "sequence": VAR_NEED}
 for name, op in [("literal", "RULE_LITERAL"), ("choice", "RULE_CHOICE"), ("sequence", "RULE_SEQUENCE")]:
-    load(name + ".tail", op, "loader case %s as the last word of the program (the length operand would lie behind the bytecode): always rejected" % op, TAILM, tail=True)
-    load(name + ".tail", op, EXACT % (op, "; the opcode as the last word: the length operand behind the bytecode is not read"), [TAIL_NEED[name]], tail=True, exact=True)
+    # (a typed-block variant peg.load.op.<name>.tail has no killable mutant any more: PEG_NEED(2) and `i != blen` guard each other)
+    load(name + ".tail", op, EXACT % (op, "; the opcode as the LAST word of the program: always rejected, and the length operand behind the bytecode is not read"), [TAIL_NEED[name]], tail=True, exact=True)
 load("unknown", "RULE_ONLY_TAGS + 1", "loader: an opcode beyond the last known one is rejected wherever it stands (the matcher's switch has no default case that returns)",
      [M("unknown-opcode-skipped", "            default:\n                goto bad;\n        }\n#undef PEG_NEED", "            default:\n                i += 2;\n                break;\n        }\n#undef PEG_NEED", "wf_peg")],
      reject_only=True)
